@@ -205,7 +205,7 @@ Section NP.
   Lemma rem_list_npo skip now : forall ids s, npo (snd (rem_list rr s ids skip now)).
   Proof.
     induction ids as [|j r IH]; intros s; cbn [rem_list]; [exact I|].
-    destruct (String.eqb j skip); [apply IH|].
+    destruct (skipped skip j); [apply IH|].
     pose proof (rr_np s j now) as H. destruct (rr s j now) as [s1 [b|e|w|]]; cbn [snd] in *; auto.
   Qed.
 
